@@ -102,7 +102,8 @@ func checkStmt(d *dfu.Dialect, stmt, q string, bad func(string, ...any)) {
 	if d == dfu.Postgres {
 		quote = '"'
 	}
-	if q != "<none>" && strings.Contains(stmt, marker) {
+	// (a requested qualifier that equals the schema's name is, of course, allowed to appear.)
+	if q != "<none>" && q != marker && strings.Contains(stmt, marker) {
 		bad("statement mentions the schema's own name: %s", stmt)
 	}
 	if q != "<none>" && reSchemaStmt.MatchString(stmt) {
@@ -165,6 +166,12 @@ func Eval(c Case) (problems []string, planErr string, nstmts int) {
 		other.Name = "other_schema"
 		changes = []schema.Change{&schema.AddTable{T: dfu.T(to, "u")}, &schema.AddTable{T: dfu.T(other, "u")}}
 		wantErr = true
+	case "two_schemas_drop_modify":
+		other := dfu.Base(d)
+		other.Name = "other_schema"
+		changes = []schema.Change{&schema.DropTable{T: dfu.T(from, "u")},
+			&schema.ModifyTable{T: dfu.T(other, "u"), Changes: []schema.Change{&schema.AddColumn{C: schema.NewIntColumn("extra", "int")}}}}
+		wantErr = true
 	case "add_schema":
 		changes = []schema.Change{&schema.AddSchema{S: to}, &schema.AddTable{T: dfu.T(to, "u")}}
 		wantErr = true
@@ -223,12 +230,13 @@ func Eval(c Case) (problems []string, planErr string, nstmts int) {
 
 func cases(tier string) []Case {
 	var cs []Case
-	quals := []string{"<none>", "", tenant}
+	// (a custom qualifier that happens to be the name of one of the schemas involved is still "one schema".)
+	quals := []string{"<none>", "", tenant, marker, "other_schema"}
 	modes := []int{int(migrate.PlanModeUnset), int(migrate.PlanModeInPlace), int(migrate.PlanModeDeferred), int(migrate.PlanModeDump)}
 	for _, d := range []*dfu.Dialect{dfu.MySQL, dfu.Postgres} {
 		for _, q := range quals {
 			for _, m := range modes {
-				for _, k := range []string{"create_all", "drop_all", "two_schemas", "add_schema", "drop_schema", "modify_schema"} {
+				for _, k := range []string{"create_all", "drop_all", "two_schemas", "two_schemas_drop_modify", "add_schema", "drop_schema", "modify_schema"} {
 					cs = append(cs, Case{d.Name, k, nil, q, m})
 				}
 				es := dfu.Edits(d)
@@ -251,7 +259,7 @@ func cases(tier string) []Case {
 }
 
 func Run(r *report.Run) {
-	r.Rule = "MySQL and PostgreSQL planners (connection-less DefaultPlan); one schema named with a unique marker; change sets from the real differ: every single edit of the differ universe (thorough: every compatible pair), create-all, drop-all, plus hand-built schema-level / two-schema change sets; x qualifier {not requested, empty, custom} x plan mode {unset, in-place, deferred, dump}; every Cmd and every reverse statement is tokenised by our own quoted-identifier scanner; non-trivial = case whose plan has >=1 statement; distinct = (dialect, change set, qualifier, mode)"
+	r.Rule = "MySQL and PostgreSQL planners (connection-less DefaultPlan); one schema named with a unique marker; change sets from the real differ: every single edit of the differ universe (thorough: every compatible pair), create-all, drop-all, plus hand-built schema-level / two-schema change sets; x qualifier {not requested, empty, custom, the name of either schema involved} x plan mode {unset, in-place, deferred, dump}; every Cmd and every reverse statement is tokenised by our own quoted-identifier scanner; non-trivial = case whose plan has >=1 statement; distinct = (dialect, change set, qualifier, mode)"
 	r.Assumptions = []string{
 		"table, enum-type and (PostgreSQL, in DROP/ALTER/COMMENT ON INDEX) index identifiers are recognised by name: the universe's names never collide with column or constraint names",
 		"change sets the connection-less planner cannot plan (needs a server) are counted as plan errors, not judged",
@@ -282,7 +290,8 @@ var reSchemaLevel = regexp.MustCompile("(?i): (ALTER DATABASE [`\"]" + marker + 
 // classify: the listed finding is "a ModifySchema change planned in a mode matching in-place with the
 // empty qualifier yields ALTER DATABASE / COMMENT ON SCHEMA naming the schema" - and nothing else.
 func classify(c Case, problems []string) string {
-	if c.Qualifier != "" || !migrate.PlanMode(c.Mode).Is(migrate.PlanModeInPlace) {
+	// (the same branch of CheckChangesScope lets it through when the qualifier is the schema's own name.)
+	if (c.Qualifier != "" && c.Qualifier != marker) || !migrate.PlanMode(c.Mode).Is(migrate.PlanModeInPlace) {
 		return ""
 	}
 	for _, p := range problems {
